@@ -407,7 +407,11 @@ def run_program(ctx, prog, lab_id, ncases, stats, jcases, jmeta, thorough, stomp
         for c, fr in zip(cases, fres):
             if fr.get("code") != 0 or any(x.get("code") != 0 or "hex" not in x for x in fr.get("items", [])):
                 ctx.violation("C07: the generated publisher failed on a generated value",
-                              {"program": prog["id"], "idl": L.render(prog), "scope": c["key"], "op": c["op"], "response": str(fr)[:1500]})
+                              {"program": prog["id"], "idl": L.render(prog), "scope": c["key"], "op": c["op"],
+                               "failed_items": [{"value": c["items"][n]["value"] if n < len(c["items"]) else None, "response": x}
+                                                for n, x in enumerate(fr.get("items", []))
+                                                if x.get("code") != 0 or "hex" not in x][:3],
+                               "response": str(fr)[:1500]})
                 reqs.append(None)
                 continue
             own = [x["topic"] for x, it in zip(fr["items"], c["items"]) if it["kind"] != "foreign_var"]
